@@ -23,7 +23,7 @@ M = [
  # ---- C03
  ("c03-static-before-route", "C03", "break", "proxy.go", "\thost, port, transport, err = p.getNextRequestHopByRoute(msg)\n\tif err == nil {\n\t\treturn host, port, transport, err\n\t}\n\treturn p.getNextRequestHopByConfig(msg)", "\thost, port, transport, err = p.getNextRequestHopByConfig(msg)\n\tif err == nil {\n\t\treturn host, port, transport, err\n\t}\n\treturn p.getNextRequestHopByRoute(msg)", "static routes consulted before Route"),
  ("c03-any-port-is-mine", "C03", "break", "proxy.go", "sipUri.Host == msg.ReceivedFrom.GetAddress() && sipUri.GetPort() == msg.ReceivedFrom.GetPort()", "sipUri.Host == msg.ReceivedFrom.GetAddress()", "any port of the listener address designates the listener"),
- ("c03-prefix-name", "C03", "break", "proxy.go", "\t\t\tif hostName == name {\n\t\t\t\treturn true\n\t\t\t}", "\t\t\tif strings.HasPrefix(hostName, name) {\n\t\t\t\treturn true\n\t\t\t}", "service name matched by prefix"),
+ ("c03-user-ignored", "C03", "break", "proxy.go", "\t\t\tif hostName == name[pos+1:] && user == name[0:pos] {", "\t\t\tif hostName == name[pos+1:] {", "user part of a user@host service name ignored"),
  ("c03-preserve-switch", "C03", "preserve", "proxy.go", "\t\t} else if p.myName.isMyMessage(msg) {\n\t\t\tzap.L().Info(\"it is my request\")\n\t\t\tp.sendToBackend(msg)\n\t\t} else {", "\t\t} else if mine := p.myName.isMyMessage(msg); mine {\n\t\t\tzap.L().Info(\"it is my request\")\n\t\t\tp.sendToBackend(msg)\n\t\t} else {", "same decision through a local variable"),
  # ---- C04
  ("c04-bind-on-final-only", "C04", "break", "proxy.go", "\t\tcase \"INVITE\":\n\t\t\tdialog, _ := msg.GetDialog()\n\t\t\tif dialog != \"\" {", "\t\tcase \"INVITE\":\n\t\t\tdialog, _ := msg.GetDialog()\n\t\t\tif dialog != \"\" && msg.IsFinalResponse() {", "bind only on final responses"),
@@ -31,10 +31,10 @@ M = [
  ("c04-key-without-callid", "C04", "break", "dialog.go", 'return fmt.Sprintf("%s-%s-%s", d.callID, d.localTag, d.remoteTag)', 'return fmt.Sprintf("%s-%s", d.localTag, d.remoteTag)', "dialog key without the Call-ID (tags collide across calls only)"),
  # ---- C05
  ("c05-advance-twice", "C05", "break", "backend.go", "\trb.index = (rb.index + 1) % n\n\treturn rb.backends[rb.index].Send(msg)", "\trb.index = (rb.index + 2) % n\n\treturn rb.backends[rb.index].Send(msg)", "cursor advanced twice"),
- ("c05-map-only-remove", "C05", "break", "backend.go", "\t\t\t\tbackends := rb.backends[0:index]\n\t\t\t\tbackends = append(backends, rb.backends[index+1:]...)\n\t\t\t\trb.backends = backends\n\t\t\t\tbreak", "\t\t\t\tbreak", "removed from the map but not from the list"),
+ ("c05-map-only-remove", "C05", "break", "backend.go", "\t\t\t\tbackends := rb.backends[0:index]\n\t\t\t\tbackends = append(backends, rb.backends[index+1:]...)\n\t\t\t\trb.backends = backends\n\t\t\t\tbreak", "\t\t\t\t_ = index\n\t\t\t\tbreak", "removed from the map but not from the list"),
  ("c05-no-advance", "C05", "break", "backend.go", "\trb.index = (rb.index + 1) % n\n\treturn rb.backends[rb.index].Send(msg)", "\trb.index = rb.index % n\n\treturn rb.backends[rb.index].Send(msg)", "cursor not advanced"),
  # ---- C06
- ("c06-append-via", "C06", "break", "message.go", "\theaders = append(headers, m.headers[0:pos]...)\n\theaders = append(headers, &Header{name: \"Via\", value: via})\n\theaders = append(headers, m.headers[pos:]...)", "\theaders = append(headers, m.headers...)\n\theaders = append(headers, &Header{name: \"Via\", value: via})", "new Via appended instead of prepended"),
+ ("c06-append-via", "C06", "break", "message.go", "\theaders = append(headers, m.headers[0:pos]...)\n\theaders = append(headers, &Header{name: \"Via\", value: via})\n\theaders = append(headers, m.headers[pos:]...)", "\t_ = pos\n\theaders = append(headers, m.headers...)\n\theaders = append(headers, &Header{name: \"Via\", value: via})", "new Via appended instead of prepended"),
  ("c06-rr-always", "C06", "break", "proxy.go", "\tif _, err := msg.GetHeader(\"Record-Route\"); err != nil && !p.mustRecordRoute {\n\t\treturn\n\t}", "", "Record-Route added unconditionally"),
  ("c06-no-cookie", "C06", "break", "util.go", 'return "z9hG4bK" + tmp[len(tmp)-1], nil', 'return "z9hG4" + tmp[len(tmp)-1], nil', "branch without the RFC 3261 cookie"),
  ("c06-via-on-unlearned", "C06", "break", "proxy.go", "\t\t\tif ok {\n\t\t\t\tp.addVia(msg, serverTrans)\n\t\t\t\tp.addRecordRoute(msg, serverTrans)\n\t\t\t}", "\t\t\tif !ok && len(p.items) > 0 && len(p.items[0].transports) > 0 {\n\t\t\t\tserverTrans, ok = p.items[0].transports[0], true\n\t\t\t}\n\t\t\tif ok {\n\t\t\t\tp.addVia(msg, serverTrans)\n\t\t\t\tp.addRecordRoute(msg, serverTrans)\n\t\t\t}", "Via inserted on the not-learned path too"),
@@ -64,7 +64,7 @@ M = [
  ("c12-key-without-transaction", "C12", "break", "transport.go", '\tif protocol == "tcp" && transId != "" {', '\tif protocol == "tcp" && transId != "" && false {', "connection registered per address only"),
  ("c12-remove-on-1xx", "C12", "break", "proxy.go", "\t\tif msg.IsFinalResponse() {\n\t\t\tp.clientTransMgr.RemoveTransport(transport, host, port, transId)\n\t\t}", "\t\tif msg.IsResponse() {\n\t\t\tp.clientTransMgr.RemoveTransport(transport, host, port, transId)\n\t\t}", "registration dropped on the first (provisional) response"),
  # ---- C13
- ("c13-ignore-port", "C13", "break", "proxy.go", "\tif sipUri.GetPort() == myPort && p.isSameAddress(sipUri.Host, myAddr) {", "\tif p.isSameAddress(sipUri.Host, myAddr) {", "own entry consumed regardless of port"),
+ ("c13-ignore-port", "C13", "break", "proxy.go", "\tif sipUri.GetPort() == myPort && p.isSameAddress(sipUri.Host, myAddr) {", "\tif myPort >= 0 && p.isSameAddress(sipUri.Host, myAddr) {", "own entry consumed regardless of port"),
  ("c13-no-alias", "C13", "break", "proxy.go", "\tif sipUri.GetPort() == myPort && p.isSameAddress(sipUri.Host, myAddr) {", "\tif sipUri.GetPort() == myPort && sipUri.Host == myAddr {", "aliases not resolved"),
  ("c13-strip-when-keep", "C13", "break", "proxy.go", "\tif !P.keepNextHopRoute {\n\t\tmsg.PopRoute()\n\t}", "\tmsg.PopRoute()", "next hop stripped although configured to keep it"),
  ("c13-remove-whole-line", "C13", "break", "message.go", "\tif route.GetRouteParamCount() > 1 {\n\t\t_, err = route.PopRouteParam()\n\t} else {", "\tif route.GetRouteParamCount() > 1 && false {\n\t\t_, err = route.PopRouteParam()\n\t} else {", "whole Route line removed when only its first entry should go"),
@@ -89,7 +89,7 @@ M = [
  ("c19-no-notify", "C19", "break", "backend.go", "\trb.backendMap[backend.GetAddress()] = backend\n\trb.backendChangeListenerMgr.HandleBackendAdded(backend, rb)", "\trb.backendMap[backend.GetAddress()] = backend", "proxy's address index not notified of additions"),
  # ---- C20
  ("c20-nil-after-failed-write", "C20", "break", "transport.go", '\tzap.L().Error("Fail to send message to TCP server", zap.String("addr", t.addr))\n\treturn fmt.Errorf("fail to send message to %s", t.addr)', '\tzap.L().Error("Fail to send message to TCP server", zap.String("addr", t.addr))\n\treturn nil', "success reported after failed writes"),
- ("c20-keep-failed-primary", "C20", "break", "transport.go", "\t\tif err == nil {\n\t\t\treturn nil\n\t\t}\n\t\tfct.primary = nil", "\t\tif err == nil {\n\t\t\treturn nil\n\t\t}", "failed primary not forgotten"),
+ ("c20-keep-failed-conn", "C20", "break", "transport.go", "\t\tt.conn.Close()\n\t\tt.conn = nil\n\t}\n\tzap.L().Error(\"Fail to send message to TCP server\"", "\t\tt.conn.Close()\n\t}\n\tzap.L().Error(\"Fail to send message to TCP server\"", "failed connection closed but kept as the cached one"),
  ("c20-both", "C20", "break", "transport.go", "\t\terr := fct.primary.Send(msg)\n\t\tif err == nil {\n\t\t\treturn nil\n\t\t}", "\t\terr := fct.primary.Send(msg)\n\t\tif err == nil && fct.secondary == nil {\n\t\t\treturn nil\n\t\t}", "written on both primary and secondary"),
  ("c20-preserve-loop", "C20", "preserve", "backend.go", "\tfor i := 0; i < 2; i++ {\n\t\tif t.conn == nil {\n\t\t\tt.connect()\n\t\t}", "\tfor attempt := 1; attempt <= 2; attempt++ {\n\t\tif t.conn == nil {\n\t\t\tt.connect()\n\t\t}", "loop variable renamed"),
 ]
